@@ -33,6 +33,9 @@ type scenario struct {
 	ncases func(tier string) int
 	run    func(tier string, idx int, w *wctx)
 	par    int // worker processes
+	// huge reports cases that may allocate a 2^31 entry queue (see hugeBegin): they run
+	// alone in a fresh worker with the garbage collector off.
+	huge func(tier string, idx int) bool
 }
 
 var scenarios []*scenario
@@ -62,6 +65,7 @@ type caseResult struct {
 	Fails      []failure      `json:"fails,omitempty"`
 	Sample     interface{}    `json:"sample,omitempty"`
 	SetupErr   string         `json:"setup_err,omitempty"`
+	Exit       bool           `json:"exit,omitempty"` // the worker exits after this case (see hugeBegin)
 }
 
 // wctx is what a case sees inside the worker.
@@ -160,6 +164,7 @@ func workerMain(name string) {
 		ops0 := atomic.LoadInt64(&opCount)
 		sc.run(tier, idx, w)
 		w.res.Ops = int(atomic.LoadInt64(&opCount) - ops0)
+		w.res.Exit = workerMustExit
 		b, err := json.Marshal(w.res)
 		if err != nil {
 			w.res.Sample = nil
@@ -167,6 +172,9 @@ func workerMain(name string) {
 		}
 		fmt.Fprintf(out, "R %s\n", b)
 		_ = out.Flush()
+		if workerMustExit {
+			os.Exit(0)
+		}
 	}
 }
 
@@ -204,10 +212,13 @@ type worker struct {
 	errb  *capBuf
 }
 
-func startWorker(sc *scenario, tier string) (*worker, error) {
+func startWorker(sc *scenario, tier string, gcOff bool) (*worker, error) {
 	w := &worker{sc: sc, tier: tier, errb: &capBuf{}, lines: make(chan string, 256)}
 	w.cmd = exec.Command(os.Args[0])
 	w.cmd.Env = append(os.Environ(), envWorker+"="+sc.name, envTier+"="+tier, envTmp+"="+ekit.Tmp)
+	if gcOff {
+		w.cmd.Env = append(w.cmd.Env, "GOGC=off")
+	}
 	w.cmd.Stderr = w.errb
 	var err error
 	if w.in, err = w.cmd.StdinPipe(); err != nil {
@@ -350,9 +361,16 @@ type caseOutcome struct {
 func evalCase(sc *scenario, tier string, wp **worker, idx int) caseOutcome {
 	o := caseOutcome{idx: idx}
 	var skip []int
+	huge := sc.huge != nil && sc.huge(tier, idx)
+	if huge {
+		// private one-case worker
+		var own *worker
+		wp = &own
+		defer func() { own.stop() }()
+	}
 	for attempt := 0; attempt < 40; attempt++ {
 		if *wp == nil {
-			w, err := startWorker(sc, tier)
+			w, err := startWorker(sc, tier, huge)
 			if err != nil {
 				o.intern = "cannot start worker: " + err.Error()
 				return o
@@ -362,6 +380,10 @@ func evalCase(sc *scenario, tier string, wp **worker, idx int) caseOutcome {
 		r, c := (*wp).runJob(idx, skip)
 		if c == nil {
 			o.res = r
+			if r.Exit {
+				(*wp).stop()
+				*wp = nil
+			}
 			return o
 		}
 		*wp = nil
@@ -418,8 +440,12 @@ func runScenario(sc *scenario, st *ekit.Stats, tier string) {
 				if idx >= n {
 					return
 				}
+				t0 := time.Now()
 				outs[idx] = evalCase(sc, tier, &w, idx)
 				done[idx] = true
+				if d := time.Since(t0); d > 3*time.Second && os.Getenv("VE_C19_DEBUG") != "" {
+					fmt.Fprintf(os.Stderr, "c19 debug: %s case %d took %v\n", sc.name, idx, d)
+				}
 			}
 		}()
 	}
